@@ -396,6 +396,7 @@ theorem vocab_content (vg : List Vocab.VNode) (a2 : Vocab.VNode → Aligner) (pl
     | true =>
       cases hkind : v.kind with
       | overlap w => exact Vocab.kernelOf_hom_overlap w _ (C09.overlap_vocab_for_pipeline_partial w)
+      | overlap2 wl wr => exact Vocab.kernelOf_hom_overlap2 wl wr _ (overlap2_streamSpec wl wr)
       | _ => simp [hkind, Vocab.isOverlap] at hk
   obtain ⟨w, hw, hall⟩ := pipeline_content _ plan R src env hsrc (hom_of_topo htopo hhom) hst h
   refine ⟨w, ?_, hall⟩
